@@ -121,7 +121,49 @@ def ob_positive_scales():
 
 
 def replay_generic(model, what):
-    return False, "no concrete replay for this obligation (model kept in the evidence)"
+    """the real module with its raw (unconstrained) leaves set to the model's values (leaves not mentioned keep their initial value);
+    the constrained quantity is read after unwrap"""
+    import jax
+    jax.config.update("jax_enable_x64", True)
+    import jax.numpy as jnp
+    import flowjax.bijections as fb
+    import flowjax.distributions as fd
+    from flowjax import flows
+    from flowjax.wrappers import unwrap
+    from ..sym import f64, leaves_of
+    mods = {
+        "Affine.scale": (lambda: fb.Affine(jnp.zeros(2), jnp.ones(2)), lambda m: m.scale, "pos"),
+        "Scale.scale": (lambda: fb.Scale(jnp.ones(2)), lambda m: m.scale, "pos"),
+        "StudentT.df": (lambda: fd.StudentT(jnp.array([2.0, 3.0])), lambda m: m.base_dist.df, "pos"),
+        "default flow transformer scale > the frozen min_scale leaf": (lambda: flows._affine_with_min_scale(), lambda m: m.scale, "pos"),
+        "Exponential scale (1/rate)": (lambda: fd.Exponential(jnp.array([2.0, 0.5])), lambda m: m.bijection.scale, "pos"),
+        "triTrue": (lambda: fb.TriangularAffine(jnp.zeros(3), jnp.eye(3) * 2 + 0.3, lower=True), lambda m: m.triangular, "tril"),
+        "triFalse": (lambda: fb.TriangularAffine(jnp.zeros(3), jnp.eye(3) * 2 + 0.3, lower=False), lambda m: m.triangular, "triu"),
+    }
+    if what not in mods:
+        return False, "no concrete replay for this obligation (model kept in the evidence)"
+    mkmod, getter, kind = mods[what]
+    mod = f64(mkmod())
+    leaves, mk, paths = leaves_of(mod)
+    new = []
+    for i, l in enumerate(leaves):
+        a = np.asarray(l, dtype=float).copy()
+        for idx in np.ndindex(a.shape):
+            key = f"raw{i}" + "".join(f"_{q}" for q in idx)
+            if key in (model or {}):
+                v = float(model[key])
+                if abs(v) > 50:
+                    return False, "model outside the float-safe box |raw| <= 50"
+                a[idx] = v
+        new.append(jnp.asarray(a))
+    val = np.asarray(getter(unwrap(mk(new))), dtype=float)
+    if kind == "pos":
+        bad = not np.all(val > 0)
+    else:
+        d = np.diag(val)
+        off = np.triu(val, 1) if kind == "tril" else np.tril(val, -1)
+        bad = (not np.all(d > 0)) or bool(np.any(off != 0))
+    return bool(bad), f"raw leaves {[np.asarray(x).tolist() for x in new]} give the constrained value {val.tolist()}"
 
 
 def ob_spline(K=2):
